@@ -96,6 +96,7 @@ fn run_impl(cap: usize, ops: &[Op]) -> Vec<String> {
     let rw = Waker::from(rc.clone());
     let ww = Waker::from(wc.clone());
     let mut outs = vec![];
+    let mut step = 0usize;
     for op in ops {
         let r0 = rc.0.load(Ordering::SeqCst);
         let w0 = wc.0.load(Ordering::SeqCst);
@@ -103,12 +104,23 @@ fn run_impl(cap: usize, ops: &[Op]) -> Vec<String> {
             Op::PollRead(n) => match rx.as_mut() {
                 None => "RSkip".into(),
                 Some(rx) => {
-                    let mut store = vec![0u8; *n];
+                    // the caller's buffer already holds 0-2 bytes of its own (as on the second poll of a
+                    // read_exact): room for n more; what is read is what is added behind them
+                    let prefill = (step * 7 + *n) % 3;
+                    step += 1;
+                    let mut store = vec![0u8; prefill + *n];
                     let mut buf = ReadBuf::new(&mut store);
+                    buf.put_slice(&vec![0xEEu8; prefill]);
                     let mut cx = Context::from_waker(&rw);
                     match Pin::new(rx).poll_read(&mut cx, &mut buf) {
                         Poll::Pending => "RPending".into(),
-                        Poll::Ready(Ok(())) => format!("RRead {}", coq_bytes(buf.filled())),
+                        Poll::Ready(Ok(())) => {
+                            if buf.filled()[..prefill].iter().any(|b| *b != 0xEE) {
+                                "RBroken (* the bytes already in the caller's buffer were overwritten *)".into()
+                            } else {
+                                format!("RRead {}", coq_bytes(&buf.filled()[prefill..]))
+                            }
+                        }
                         Poll::Ready(Err(_)) => "RBroken".into(),
                     }
                 }
@@ -203,7 +215,8 @@ fn main() {
     let mut samples = vec![];
 
     let mut emit = |cap: usize, ops: &[Op], w: &mut CaseWriter| {
-        let outs = run_impl(cap, ops);
+        // a panic inside the channel is a result too (the model never gives it, so the case fails the comparison)
+        let outs = catch(std::panic::AssertUnwindSafe(|| run_impl(cap, ops))).unwrap_or_else(|m| vec![format!("(RBroken (* PANIC {} *), 0%N, 0%N)", m.replace("*)", "* )"))]);
         let term = format!(
             "({}%nat, {}, {})",
             cap,
